@@ -8,6 +8,7 @@ Everything is derived from MIR facts of /repo's current tree:
   rewrites     <- assignments to Job.read_access reachable from handle_success
 Rules R1..R9 are documented in DESIGN.md section 3.
 """
+import os
 from collections import defaultdict, deque
 
 from prog import (CFG, WORK_EXEC, WORK_TRAIT, backward_slice, def_sites, operand_local,
@@ -1094,6 +1095,21 @@ def run_rules(E, M, tables, tier="quick"):
                             from common import norm_fn
                             allowed_fns = set(e.get("read_fns", []))
                             extra = sorted({norm_fn(t["fn"]) for t in ts} - allowed_fns) if allowed_fns else []
+                            # ... and the audited write sites of that writer only: the argument for GlyphOrderWork is that it
+                            # rewrites composites (and creates new names), never a component-less glyph whose backend job may
+                            # already be running; a write of the slot from another function is not covered
+                            wallowed = e.get("writer_fns", {}).get(f"{pj['self']}|{sk[0]}.{sk[1]}")
+                            wextra = sorted({norm_fn(w["fn"]) for w in pj["writes"].get(sk, [])} - set(wallowed)) if wallowed is not None else []
+                            if os.environ.get("E1_DEBUG_WRITES"):
+                                print("E1-WRITES", pj["self"], sk, sorted({norm_fn(w["fn"]) for w in pj["writes"].get(sk, [])}))
+                            if not extra and wextra:
+                                w = [w for w in pj["writes"][sk] if norm_fn(w["fn"]) in wextra][0]
+                                obl.append({"rule": "R2", "inst": inst + f" (write site {wextra[0]} is not covered by the instance-level exception)", "ok": False})
+                                add("R2", f"R2|{j['self']}|{fmt_id(sid)}|{pj['self']}|write:{wextra[0]}",
+                                    f"[{fe}] {pj['self']} writes {sk[0]}.{sk[1]} from {wextra[0]}, a site the audited instance-level argument does not cover, and {j['self']} reads that slot with no forced "
+                                    f"order for the instances it does not depend on (a backend glyph job of a glyph without components is not ordered after the glyph-order job): the value it reads depends on the interleaving",
+                                    loc(w["fn"], w["line"]), {"writer_path": P.path_to(pj["reach"], w["fn"])})
+                                continue
                             if not extra:
                                 used_exc.add((j["self"], f"{sk[0]}.{sk[1]}"))
                                 obl.append({"rule": "R2", "inst": inst + " (instance-level exception, witness checked)", "ok": True})
